@@ -325,6 +325,7 @@ def roundtrip(rec, case, build, hold, twin_mode, fmt, opt, fresh_batch=None, pre
     rec.count("transitions"); rec.count("traces"); rec.count("evaluations")
     if alive and len(alive) < len(exp):
         rec.count("nontrivial")
+    payload_before = copy.deepcopy(payload) if fmt == "dict" else payload
     try:
         got = loads(cls, payload, fmt, opt)
     except Exception as e:  # noqa: BLE001
@@ -334,6 +335,9 @@ def roundtrip(rec, case, build, hold, twin_mode, fmt, opt, fresh_batch=None, pre
     compare(rec, case, got, exp, alive)
     if 0 in alive and not (got == alive[0]):
         rec.violation("C04|not-equal", case, "result != original although the root is alive")
+    if fmt == "dict" and payload != payload_before:
+        # the document is the caller's: reading it must leave it as it was (it may be read again, stored, compared)
+        rec.violation("C04|document-modified", case, "as_obj changed the dictionary it was given")
     if fmt == "dict":
         # the caller owns the payload: scribbling over it after the load must not reach the loaded tree
         _mutate_all(payload)
